@@ -85,11 +85,15 @@ func checkC14(c caseC14) (sig, msg string) {
 				} else {
 					v = api.NewZero(int(first >> 4))
 				}
-				pan = guard.Watched(len(op.Frame), func() []byte { return mustJSON(vf.Failure{Property: "C14", Kind: "hang", Case: mustJSON(c), Signature: "hang"}) }, func() { err = v.UnmarshalBinary(s.retained) })
+				pan = guard.Watched(len(op.Frame), func() []byte {
+					return mustJSON(vf.Failure{Property: "C14", Kind: "hang", Case: mustJSON(c), Signature: "hang"})
+				}, func() { err = v.UnmarshalBinary(s.retained) })
 				s.p = v
 			} else {
 				s.retained = append([]byte(nil), op.Frame...)
-				pan = guard.Watched(len(op.Frame), func() []byte { return mustJSON(vf.Failure{Property: "C14", Kind: "hang", Case: mustJSON(c), Signature: "hang"}) }, func() { s.p, err = mq.ReadPacket(bytes.NewReader(s.retained)) })
+				pan = guard.Watched(len(op.Frame), func() []byte {
+					return mustJSON(vf.Failure{Property: "C14", Kind: "hang", Case: mustJSON(c), Signature: "hang"})
+				}, func() { s.p, err = mq.ReadPacket(bytes.NewReader(s.retained)) })
 			}
 			if pan != nil {
 				return "panic", fmt.Sprintf("step %d decode panicked: %v", step, pan.Value)
